@@ -182,10 +182,13 @@ Definition i64_of_u64 (x : N) : Z :=
 Inductive pres (A : Type) :=
 | POk (a : A) (rest : list N)
 | PErr (code : N)
-| PFuel.                                   (* hazard: recursion budget exhausted; proved unreachable *)
+| PFuel                                    (* hazard: recursion budget exhausted; proved unreachable *)
+| PDeep.                                   (* hazard: ParseArray/ParseObject frame entered with more than
+                                              MAX_DEPTH containers open (stack depth); proved unreachable *)
 Arguments POk {A} _ _.
 Arguments PErr {A} _.
 Arguments PFuel {A}.
+Arguments PDeep {A}.
 
 (* error codes <-> messages (driver.ml prints the text):
    0 "" | 1 No JSON data found | 2 Unterminated string | 3 Invalid string escape sequence |
@@ -294,7 +297,7 @@ Fixpoint parse_value (fuel : nat) (depth : N) (l : list N) {struct fuel} : pres 
   | [] => PErr 11
   | c :: r =>
     if c =? 34 then
-      match parse_str r [] with POk s rest => POk (JStr s) rest | PErr e => PErr e | PFuel => PFuel end
+      match parse_str r [] with POk s rest => POk (JStr s) rest | PErr e => PErr e | PFuel => PFuel | PDeep => PDeep end
     else if starts_with [116;114;117;101] l then POk (JBool true) (drop 4 l)
     else if starts_with [102;97;108;115;101] l then POk (JBool false) (drop 5 l)
     else if starts_with [110;117;108;108] l then POk JNull (drop 4 l)
@@ -317,11 +320,13 @@ Fixpoint parse_value (fuel : nat) (depth : N) (l : list N) {struct fuel} : pres 
   end end
 with parse_elems (fuel : nat) (depth : N) (l : list N) (acc : list jv) {struct fuel} : pres jv :=
   match fuel with O => PFuel | S f =>
+  if MAX_DEPTH <? depth then PDeep else
   match trim l with
   | [] => PErr 4
   | l1 =>
     match parse_value f depth l1 with
     | PFuel => PFuel
+    | PDeep => PDeep
     | PErr e => PErr e
     | POk v r1 =>
       match trim r1 with
@@ -334,12 +339,14 @@ with parse_elems (fuel : nat) (depth : N) (l : list N) (acc : list jv) {struct f
   end end
 with parse_members (fuel : nat) (depth : N) (l : list N) (acc : list (list N * jv)) {struct fuel} : pres jv :=
   match fuel with O => PFuel | S f =>
+  if MAX_DEPTH <? depth then PDeep else
   match trim l with
   | [] => PErr 6
   | c :: r =>
     if negb (c =? 34) then PErr 7 else
     match parse_str r [] with
     | PFuel => PFuel
+    | PDeep => PDeep
     | PErr e => PErr e
     | POk key r1 =>
       match trim r1 with
@@ -351,6 +358,7 @@ with parse_members (fuel : nat) (depth : N) (l : list N) (acc : list (list N * j
         | l3 =>
           match parse_value f depth l3 with
           | PFuel => PFuel
+          | PDeep => PDeep
           | PErr e => PErr e
           | POk v r4 =>
             match trim r4 with
@@ -374,6 +382,7 @@ Definition parse_text_fuel (fuel : nat) (text : list N) : pres jv :=
   | [] => PErr 1
   | _ => match parse_value fuel 0 l with
          | PFuel => PFuel
+         | PDeep => PDeep
          | PErr e => PErr e
          | POk v rest => match trim rest with [] => POk v [] | _ => PErr 0 end
          end
